@@ -247,10 +247,13 @@ impl InnerNodeManage {
         if self.all_nodes.is_empty() {
             ProcessRange::new(0, 1)
         } else {
-            ProcessRange::new(
-                self.get_this_node().index as usize,
-                self.all_nodes.iter().filter(|(_, v)| v.is_valid()).count(),
-            )
+            // the index must be counted among the valid nodes, like route_addr does
+            let valid_nodes = self.all_nodes.values().filter(|v| v.is_valid());
+            let index = valid_nodes
+                .clone()
+                .position(|v| v.id == self.local_id)
+                .unwrap_or_default();
+            ProcessRange::new(index, valid_nodes.count())
         }
     }
 
